@@ -218,6 +218,10 @@ class Interp:
         st = self.stubs.get(id(fn))
         if st is not None and st[0] is fn:
             return st[1](self, args, kwargs)
+        if getattr(fn, "__symex_native__", False) or \
+                getattr(getattr(fn, "__self__", None), "__symex_native__", False) is True:
+            # harness fakes (connections, callbacks, ...) accept symbolic arguments as they are
+            return self.nat(lambda: fn(*args, **kwargs))
         if isinstance(fn, Closure):
             if fn.is_async:
                 return Coro(self, fn, args, kwargs)
